@@ -234,6 +234,19 @@ fn blocking<R>(subject: usize, op: u8, mut attempt: impl FnMut(&mut Kernel, bool
     }
 }
 
+/// What the kernel does to a process that writes to a pipe nobody reads: SIGPIPE first, EPIPE only if the signal is
+/// ignored or handled. Rust's runtime ignores it before `main`; a program that sets it back to the default dies here,
+/// exactly as it would on a real pipe.
+fn deliver_sigpipe() {
+    unsafe {
+        let mut current: libc::sigaction = ::std::mem::zeroed();
+        if libc::sigaction(libc::SIGPIPE, ::std::ptr::null(), &mut current) == 0 && current.sa_sigaction == libc::SIG_DFL {
+            kernel::with(|k| k.note_compiler_sigpipe());
+            libc::raise(libc::SIGPIPE);
+        }
+    }
+}
+
 fn seam_gone() -> io::Error {
     io::Error::new(io::ErrorKind::Other, "simstd: kernel not available")
 }
@@ -243,7 +256,12 @@ impl Write for ChildStdin {
         match blocking(self.gen, 0, |k, first| k.stdin_write(self.gen, self.pipe, buf, first)) {
             None => Err(seam_gone()),
             Some(Ok(n)) => Ok(n),
-            Some(Err(errno)) => Err(io::Error::from_raw_os_error(errno)),
+            Some(Err(errno)) => {
+                if errno == libc::EPIPE {
+                    deliver_sigpipe();
+                }
+                Err(io::Error::from_raw_os_error(errno))
+            }
         }
     }
     fn flush(&mut self) -> io::Result<()> {
@@ -256,7 +274,12 @@ impl Write for &ChildStdin {
         match blocking(self.gen, 0, |k, first| k.stdin_write(self.gen, self.pipe, buf, first)) {
             None => Err(seam_gone()),
             Some(Ok(n)) => Ok(n),
-            Some(Err(errno)) => Err(io::Error::from_raw_os_error(errno)),
+            Some(Err(errno)) => {
+                if errno == libc::EPIPE {
+                    deliver_sigpipe();
+                }
+                Err(io::Error::from_raw_os_error(errno))
+            }
         }
     }
     fn flush(&mut self) -> io::Result<()> {
